@@ -837,9 +837,16 @@ where
 	let parent_key_id = wallet.parent_key_id();
 
 	let key_id = match key_id {
-		Some(key_id) => match keys::retrieve_existing_key(wallet, key_id, None) {
-			Ok(k) => k.0,
-			Err(_) => keys::next_available_key(wallet, keychain_mask)?,
+		// a key supplied by the caller is only reused for the still-unconfirmed
+		// coinbase candidate it was handed out for, never to overwrite the record
+		// of any other output
+		Some(key_id) => match wallet.get(&key_id, &None) {
+			Ok(existing)
+				if existing.is_coinbase && existing.status == OutputStatus::Unconfirmed =>
+			{
+				keys::retrieve_existing_key(wallet, key_id, None)?.0
+			}
+			_ => keys::next_available_key(wallet, keychain_mask)?,
 		},
 		None => keys::next_available_key(wallet, keychain_mask)?,
 	};
